@@ -751,6 +751,7 @@ bool qlisttbl_getnext(qlisttbl_t *tbl, qlisttbl_obj_t *obj, const char *name,
     uint32_t hash = (name != NULL) ? qhashmurmur3_32(name, strlen(name)) : 0;
 
     bool ret = false;
+    int err = ENOENT;
     while (cont != NULL) {
         if (name == NULL || tbl->namematch(cont, name, hash) == true) {
             if (newmem == true) {
@@ -761,7 +762,7 @@ bool qlisttbl_getnext(qlisttbl_t *tbl, qlisttbl_obj_t *obj, const char *name,
                     if (obj->data != NULL) free(obj->data);
                     obj->name = NULL;
                     obj->data = NULL;
-                    errno = ENOMEM;
+                    err = ENOMEM;
                     break;
                 }
                 memcpy(obj->data, cont->data, cont->size);
@@ -783,7 +784,7 @@ bool qlisttbl_getnext(qlisttbl_t *tbl, qlisttbl_obj_t *obj, const char *name,
     qlisttbl_unlock(tbl);
 
     if (ret == false) {
-        errno = ENOENT;
+        errno = err;
     }
 
     return ret;
